@@ -74,3 +74,14 @@ pub mod tokio { pub mod time {
             final(w).slept_ns == dur_ns(d), final(w).now_ns >= old(w).now_ns + dur_ns(d),
     { unimplemented!() }
 } }
+// E3d drop model of `PaymentProvider::pay` (NOT cancellation safe): the future was polled and then dropped
+// because another select! arm completed first.  The request may have reached the node: our pay command may
+// be running there and parts may appear (the rely with pay_running set); whether it is still running is
+// unknown; nothing of ours changed.  ASSUMED (tokio: dropping a future cancels only the local wait).
+#[verifier::external_body]
+pub fn pay__dropped<T, R>(p: &T, req: R, Tracked(w): Tracked<&mut World>)
+    ensures
+        rely_env(World { pay_running: true, ..*old(w) }, World { pay_running: true, ..*final(w) }),
+        ds_hash_unchanged(*old(w), *final(w)),
+        final(w).faulted == old(w).faulted,
+{ unimplemented!() }
